@@ -335,3 +335,5 @@ func debugC06(run *Run, replay string) {
 		}
 	}
 }
+
+func init() { props["debug-vc"] = func(run *Run, replay string) { valueCandsCases(run) } }
